@@ -645,3 +645,108 @@ M('C14-twin-caught-init', 'C14', CONN,
   "        for handler, exc_types in self._exception_handlers:\n            if not exc_types or isinstance(exc, exc_types):\n                try:\n                    handler(exc, exc_info)\n                    caught = True\n                    break\n                except Exception as new_exc:\n                    exc, exc_info = new_exc, sys.exc_info()\n        else:\n            caught = False\n",
   "        caught = False\n        for handler, exc_types in self._exception_handlers:\n            if not exc_types or isinstance(exc, exc_types):\n                try:\n                    handler(exc, exc_info)\n                    caught = True\n                    break\n                except Exception as new_exc:\n                    exc, exc_info = new_exc, sys.exc_info()\n",
   expect='silent')
+
+# ---------------------------------------------------------------- C17
+M('C17-update-order', 'C17', ENC,
+  "    verification_hash.update(shared_secret)\n    verification_hash.update(public_key)",
+  "    verification_hash.update(public_key)\n    verification_hash.update(shared_secret)", rule='R17.1')
+M('C17-unsigned', 'C17', ENC, "_number_from_bytes(sha1_hash.digest(), signed=True)",
+  "_number_from_bytes(sha1_hash.digest(), signed=False)", rule='R17.2')
+M('C17-upper-hex', 'C17', ENC, "return format(number_representation, 'x')",
+  "return format(number_representation, 'X')", rule='R17.2')
+M('C17-padded-hex', 'C17', ENC, "return format(number_representation, 'x')",
+  "return format(number_representation, '040x')", rule='R17.2')
+M('C17-little-endian', 'C17', ENC, "return int.from_bytes(b, byteorder='big', signed=signed)",
+  "return int.from_bytes(b, byteorder='little', signed=signed)", rule='R17.2')
+M('C17-latin1', 'C17', ENC, "verification_hash.update(server_id.encode('utf-8'))",
+  "verification_hash.update(server_id.encode('latin-1'))", rule='R17.1')
+M('C17-use-site-swapped', 'C17', CONN, "packet.server_id, secret, packet.public_key)",
+  "packet.server_id, packet.public_key, secret)", rule='R17.3')
+M('C17-sha256', 'C17', ENC, "from hashlib import sha1", "from hashlib import sha256 as sha1", rule='R17.1')
+M('C17-hexdigest', 'C17', ENC,
+  "    number_representation = _number_from_bytes(sha1_hash.digest(), signed=True)\n    return format(number_representation, 'x')",
+  "    return sha1_hash.hexdigest()", expect='undecided')
+M('C17-twin-single-update', 'C17', ENC,
+  "    verification_hash = sha1()\n\n    verification_hash.update(server_id.encode('utf-8'))\n    verification_hash.update(shared_secret)\n    verification_hash.update(public_key)\n",
+  "    verification_hash = sha1(server_id.encode('utf-8') + shared_secret + public_key)\n", expect='silent')
+M('C17-twin-positional-big', 'C17', ENC, "return int.from_bytes(b, byteorder='big', signed=signed)",
+  "return int.from_bytes(b, 'big', signed=signed)", expect='silent')
+
+# ---------------------------------------------------------------- C10
+M('C10-force-removed', 'C10', CONN, "self.connection.write_packet(encryption_response, force=True)",
+  "self.connection.write_packet(encryption_response)", rule='R10.1')
+M('C10-wrappers-before-response', 'C10', CONN,
+  "            # Forced because we'll have encrypted the connection by the time\n            # it reaches the outgoing queue\n            self.connection.write_packet(encryption_response, force=True)\n\n            # Enable the encryption\n            cipher = encryption.create_AES_cipher(secret)\n            encryptor = cipher.encryptor()\n            decryptor = cipher.decryptor()\n            self.connection.socket = encryption.EncryptedSocketWrapper(\n                self.connection.socket, encryptor, decryptor)\n",
+  "            # Enable the encryption\n            cipher = encryption.create_AES_cipher(secret)\n            encryptor = cipher.encryptor()\n            decryptor = cipher.decryptor()\n            self.connection.socket = encryption.EncryptedSocketWrapper(\n                self.connection.socket, encryptor, decryptor)\n            self.connection.write_packet(encryption_response, force=True)\n",
+  rule='R10.1')
+M('C10-only-socket-wrapped', 'C10', CONN,
+  "            self.connection.file_object = \\\n                encryption.EncryptedFileObjectWrapper(\n                    self.connection.file_object, decryptor)\n",
+  "", rule='R10.1')
+M('C10-second-secret-for-cipher', 'C10', CONN, "            cipher = encryption.create_AES_cipher(secret)",
+  "            cipher = encryption.create_AES_cipher(\n                encryption.generate_shared_secret())", rule='R10.1')
+M('C10-response-slots-swapped', 'C10', CONN,
+  "            encryption_response.shared_secret = encrypted_secret\n            encryption_response.verify_token = token",
+  "            encryption_response.shared_secret = token\n            encryption_response.verify_token = encrypted_secret",
+  rule='R10.1')
+M('C10-unpack-order-swapped', 'C10', CONN, "            token, encrypted_secret = encryption.encrypt_token_and_secret(",
+  "            encrypted_secret, token = encryption.encrypt_token_and_secret(", rule='R10.1')
+M('C10-helper-return-swapped', 'C10', ENC, "    return encrypted_token, encrypted_secret",
+  "    return encrypted_secret, encrypted_token", rule='R10.1')
+M('C10-plugin-successful', 'C10', CONN, "message_id=packet.message_id, successful=False))",
+  "message_id=packet.message_id, successful=True))", rule='R10.3')
+M('C10-plugin-wrong-id', 'C10', CONN, "message_id=packet.message_id, successful=False))",
+  "message_id=0, successful=False))", rule='R10.3')
+M('C10-disconnect-returns-on-outdated', 'C10', CONN,
+  "            if match:\n                ver = match.group('ver')\n                self.connection._version_mismatch(server_version=ver)\n            raise LoginDisconnect(",
+  "            if match:\n                return\n            raise LoginDisconnect(", rule='R10.5')
+M('C10-threshold-without-enable', 'C10', CONN,
+  "class LoginReactor(PacketReactor):", "class LoginReactor(PacketReactor):", expect='violation', rule='R10.2',
+  edits=[dict(file=CONN, find="        elif packet.packet_name == \"set compression\":\n            self.connection.options.compression_threshold = packet.threshold\n            self.connection.options.compression_enabled = True\n\n        elif packet.packet_name == \"login plugin request\":",
+              repl="        elif packet.packet_name == \"set compression\":\n            self.connection.options.compression_threshold = packet.threshold\n\n        elif packet.packet_name == \"login plugin request\":")])
+M('C10-join-offline-too', 'C10', CONN, "            if packet.server_id != '-':", "            if packet.server_id:",
+  rule='R10.1')
+M('C10-decryptor-twice', 'C10', CONN,
+  "                encryption.EncryptedFileObjectWrapper(\n                    self.connection.file_object, decryptor)",
+  "                encryption.EncryptedFileObjectWrapper(\n                    self.connection.file_object, cipher.decryptor())", rule='R10.1')
+M('C10-pattern-unanchored', 'C10', CONN, "r\" I'm still on) (?P<ver>\\S+)$\", msg)", "r\" I'm still on) (?P<ver>\\S+)\", msg)",
+  rule='R10.5')
+M('C10-arm-name-typo', 'C10', CONN, "        elif packet.packet_name == \"login success\":",
+  "        elif packet.packet_name == \"login sucess\":", rule='R10.7')
+M('C10-success-keeps-login-reactor', 'C10', CONN,
+  "            self.connection.reactor = PlayingReactor(self.connection)", "            pass", rule='R10.4')
+M('C10-login-start-unnamed', 'C10', CONN,
+  "                else:\n                    login_start_packet.name = self.username\n", "                else:\n                    pass\n",
+  rule='R10.8')
+M('C10-twin-rename-contexts', 'C10', CONN, "", "", expect='silent',
+  edits=[dict(file=CONN, find="            decryptor = cipher.decryptor()", repl="            dec_ctx = cipher.decryptor()"),
+         dict(file=CONN, find="self.connection.socket, encryptor, decryptor)", repl="self.connection.socket, encryptor, dec_ctx)"),
+         dict(file=CONN, find="self.connection.file_object, decryptor)", repl="self.connection.file_object, dec_ctx)")])
+M('C10-twin-kwargs-response', 'C10', CONN,
+  "            encryption_response = serverbound.login.EncryptionResponsePacket()\n            encryption_response.shared_secret = encrypted_secret\n            encryption_response.verify_token = token\n",
+  "            encryption_response = serverbound.login.EncryptionResponsePacket(\n                shared_secret=encrypted_secret, verify_token=token)\n",
+  expect='silent')
+
+# ---------------------------------------------------------------- C18
+M('C18-cfb-not-cfb8', 'C18', ENC, "modes.CFB8(shared_secret)", "modes.CFB(shared_secret)", rule='R18.1')
+M('C18-iv-zero', 'C18', ENC, "modes.CFB8(shared_secret)", "modes.CFB8(b'\\x00' * 16)", rule='R18.1')
+M('C18-urandom-32', 'C18', ENC, "return os.urandom(16)", "return os.urandom(32)", rule='R18.2')
+M('C18-oaep', 'C18', ENC, "from cryptography.hazmat.primitives.asymmetric.padding import PKCS1v15",
+  "from cryptography.hazmat.primitives.asymmetric.padding import PKCS1v15 as _P, OAEP, MGF1\nfrom cryptography.hazmat.primitives import hashes\n\n\ndef PKCS1v15():\n    return OAEP(MGF1(hashes.SHA1()), hashes.SHA1(), None)",
+  rule='R18.3')
+M('C18-encryptor-inside-send', 'C18', ENC,
+  "    def send(self, data):\n        self.actual_socket.send(self.encryptor.update(data))",
+  "    def send(self, data):\n        self.actual_socket.send(self.encryptor.update(data) + self.encryptor.finalize())",
+  rule='R18.5')
+M('C18-secret-at-import', 'C18', ENC, "def generate_shared_secret():\n    return os.urandom(16)",
+  "_SECRET = os.urandom(16)\n\n\ndef generate_shared_secret():\n    return _SECRET", rule='R18.2')
+M('C18-wrong-direction', 'C18', ENC,
+  "    def recv(self, length):\n        return self.decryptor.update(self.actual_socket.recv(length))",
+  "    def recv(self, length):\n        return self.encryptor.update(self.actual_socket.recv(length))", rule='R18.5')
+M('C18-wrapper-args-swapped', 'C18', CONN, "self.connection.socket, encryptor, decryptor)",
+  "self.connection.socket, decryptor, encryptor)", rule='R18.4')
+M('C18-token-encrypted-twice', 'C18', ENC, "    encrypted_secret = pubkey.encrypt(shared_secret, PKCS1v15())",
+  "    encrypted_secret = pubkey.encrypt(verification_token, PKCS1v15())", rule='R18.3')
+M('C18-key-reversed', 'C18', ENC, "algorithms.AES(shared_secret)", "algorithms.AES(shared_secret[::-1])", rule='R18.1')
+M('C18-twin-kw', 'C18', ENC, "    cipher = Cipher(algorithms.AES(shared_secret), modes.CFB8(shared_secret),\n                    backend=default_backend())",
+  "    key = shared_secret\n    cipher = Cipher(algorithm=algorithms.AES(key), mode=modes.CFB8(key),\n                    backend=default_backend())",
+  expect='silent')
